@@ -69,6 +69,9 @@ def r_expr(e):
     return "%s(%s)" % (e[1], ", ".join(r_expr(x) for x in e[2]))
   if k == "param":
     return e[1]
+  if k == "vslice":
+    b = r_expr(e[2])
+    return "%s[%s : %s + %d]" % (r_path(e[1]), b, b, e[3])
   raise ValueError(e)
 
 
